@@ -38,6 +38,7 @@ func c17BuildCRLFile(ca *CA, n int, pemEnc bool, path string) (listed, unlisted 
 }
 
 const c17Ceiling = 192 << 20
+const c17Deadline = 300 * time.Second
 
 type c17Result struct {
 	N        int
@@ -76,6 +77,7 @@ func c17Measure(r *Run, ca *CA, n int, pemEnc, viaHTTP bool) (c17Result, error) 
 	res := c17Result{N: n, Baseline: ms.HeapAlloc}
 	var stop int32
 	var peak uint64
+	tStart := time.Now()
 	doneS := make(chan struct{})
 	go func() {
 		defer close(doneS)
@@ -88,6 +90,12 @@ func c17Measure(r *Run, ca *CA, n int, pemEnc, viaHTTP bool) (c17Result, error) 
 			}
 			// far beyond anything a bounded reader needs (the unchanged code peaks below 32 MiB at 10^6 entries): the
 			// verdict is established, do not spend an hour in a thrashing collector
+			if time.Since(tStart) > c17Deadline {
+				r.Violate("C17 large-crl-not-processed "+fmt.Sprintf("pem=%v http=%v", pemEnc, viaHTTP),
+					fmt.Sprintf("a CRL with %d entries was not processed within %v (the unchanged code needs under 20 s for 500000 entries): time or allocation volume grows faster than the input; run aborted",
+						n, c17Deadline), map[string]interface{}{"N": n, "seconds": time.Since(tStart).Seconds()})
+				r.Abort()
+			}
 			if m.HeapAlloc > res.Baseline+c17Ceiling {
 				r.Violate("C17 memory-grows-with-entries "+fmt.Sprintf("pem=%v http=%v", pemEnc, viaHTTP),
 					fmt.Sprintf("live heap reached %d MiB while processing a CRL with %d entries (baseline %d MiB, ceiling %d MiB); run aborted",
